@@ -329,7 +329,8 @@ class SimEnv:
         W = self.worker_class()
         cfg = self.cfg
         wc = 1.0 if cfg.work_cap == "default" else cfg.work_cap
-        jt = {"join_timeout": 1} if getattr(cfg, "join_timeout", False) else {}
+        # a finite time-out: some seconds, or 0 ("do not wait at all")
+        jt = {"join_timeout": (0 if (cfg.n_workers + len(cfg.calls)) % 2 == 0 else 1)} if getattr(cfg, "join_timeout", False) else {}
         if cfg.factory:
             opp = self.opp
 
